@@ -147,6 +147,28 @@ def oid_of(i, arcs):
     return ".".join(["1", "3", "6", "1", "4", "1"] + [str(100000 + (i * 131 + k) % 50000) for k in range(arcs - 6)])
 
 
+def peer_bounce_session(rec, cfg, nreq, cap):
+    import time as _time
+
+    class _NullRec:
+        n = 0
+
+        def emit(self, e):
+            pass
+    s = rawdrv.RawSession(rec, cfg, maxbuf=cap)
+    s.send("get", [oid_of(1, 9)])
+    s.kill_agent()
+    real_rec, s.rec = s.rec, _NullRec()
+    s.send("get", [oid_of(2, 9)])                    # bounces (environment, not judged)
+    s.rec = real_rec
+    _time.sleep(0.05)
+    s.revive_agent()
+    s.send("get_many" if nreq > 1 else "get", [oid_of(i, 9) for i in range(nreq)], peergone=True)
+    s.send("get", [oid_of(3, 9)], peergone=True)      # (the pending error surfaces at the first send() that reaches the socket)
+    s.send("get", [oid_of(4, 9)])
+    s.close()
+
+
 def after_reply_session(rec, cfg, M, reqs, cap):
     s = rawdrv.RawSession(rec, cfg, maxbuf=cap)
     agent = ag.Agent(engine=cfg.engine)
@@ -239,6 +261,16 @@ def size_sweep(chk, thorough, rng, cap):
             for (n, arcs) in reqs:
                 chk.case(("size-after-reply", base, M, n, arcs))
             runs.append((a, rec.n, dict(cfg=base + "-after-msgMaxSize-%d" % M, L=len(cfg.user), reqs=reqs)))
+    # what the operating system may do to a send(): the peer's port closes (one datagram bounces: ICMP port unreachable), comes back,
+    # and the next send() of the connected socket is refused with ECONNREFUSED - reported as an error; a request is either on the wire,
+    # complete, or the call failed
+    for cn in ("v2c", "v1", "v3-md5", "v3-noauth"):
+        cfg = std[cn]
+        for nreq in (1, 40, 200):
+            a = rec.n
+            peer_bounce_session(rec, cfg, nreq, cap)
+            runs.append((a, rec.n, dict(cfg=cn + "-peer-bounce", L=nreq, reqs=[])))
+            chk.case(("peer-bounce", cn, nreq), n=3)
     rec.close()
     nref = sum(1 for ev in rec.events if ev["ev"] == "Send" and ev.get("exc"))
     nsent = sum(1 for ev in rec.events if ev["ev"] == "Send" and not ev.get("exc"))
@@ -366,6 +398,15 @@ def replay(path):
         std = scripts.std_cfgs()
         e = ag.Agent().engine
         L = info["L"]
+        if info["cfg"].endswith("-peer-bounce"):
+            rec = trace.Recorder("c17-replay")
+            peer_bounce_session(rec, std[info["cfg"][:-len("-peer-bounce")]], L, cap)
+            v = trace.validate("TraceSession.tla", "TraceSession.cfg", rec.close())
+            if v["accepted"] and not v["fails"]:
+                print("replay: accepted")
+                return 0
+            print("VIOLATION property=C17 replay=%s" % path)
+            return 1
         if "-after-msgMaxSize-" in info["cfg"]:
             base, M = info["cfg"].split("-after-msgMaxSize-")
             rec = trace.Recorder("c17-replay")
